@@ -181,6 +181,27 @@ func (p *Prog) indexLoopAsRange(fs *ast.ForStmt, before []ast.Stmt) *ast.RangeSt
 		}
 	}
 	xField := p.FieldOf(xExpr)
+	if !localX && xField != nil {
+		// a field chain of a local struct *value* (not reached through a pointer): only code that names the
+		// local can change it, which the body scan below sees
+		root := xExpr
+		viaPointer := false
+		for {
+			sel, ok := unparen(root).(*ast.SelectorExpr)
+			if !ok {
+				break
+			}
+			if _, isPtr := p.TypeOf(sel.X).Underlying().(*types.Pointer); isPtr {
+				viaPointer = true
+			}
+			root = sel.X
+		}
+		if rid, ok := unparen(root).(*ast.Ident); ok && !viaPointer {
+			if v, ok := p.ObjOf(rid).(*types.Var); ok && !v.IsField() && v.Pkg() != nil && v.Parent() != v.Pkg().Scope() {
+				xObj, localX = v, true
+			}
+		}
+	}
 	if !localX && xField == nil {
 		return nil
 	}
